@@ -278,7 +278,7 @@ def mutated_set(seed, i, corpus):
     data = base["files"][name]
     ops = []
     for _ in range(rng.randint(1, 3)):
-        op = rng.choice(["byte", "delete", "dup_line", "drop_line", "multibyte", "crlf", "truncate", "truncate_clean", "token_swap", "insert_token"])
+        op = rng.choice(["byte", "delete", "dup_line", "drop_line", "multibyte", "crlf", "truncate", "truncate_clean", "trailing_backslash", "token_swap", "insert_token"])
         ops.append(op)
         if not data:
             break
@@ -313,6 +313,12 @@ def mutated_set(seed, i, corpus):
             # end of file right after a token, no trailing newline
             j = rng.randrange(len(data))
             data = data[:j].rstrip()
+        elif op == "trailing_backslash":
+            # the file ends inside a string literal, right after a backslash
+            quotes = [j for j, c in enumerate(data) if c == 0x22]
+            if quotes:
+                q = rng.choice(quotes)
+                data = data[:q + 1] + rng.choice([b"", b"Is ", b"a b"]) + b"\\"
         elif op == "token_swap":
             toks = re.split(rb"(\s+)", data)
             if len(toks) > 4:
